@@ -416,7 +416,58 @@ func genCase(r *RNG) cfgCase {
 		spocText = respell(r, spocText, true)
 		note = append(note, "target-spells-protocol-by-number-or-ports-by-name")
 	}
+	if r.Chance(30) {
+		// blocks the tool does not model, with indented sub-lines, behind the last object-group, access-list or route
+		devText = insertUnknownBlocks(r, devText)
+		note = append(note, "unknown-blocks-with-sub-lines")
+		return cfgCase{Dev: devText, Spoc: spocText, Bindings: bindings, Routes: len(b.Routes) > 0, Note: note, dev: parseDev(devText), spoc: b}
+	}
 	return cfgCase{Dev: devText, Spoc: spocText, Bindings: bindings, Routes: len(b.Routes) > 0, Note: note, dev: a, spoc: b}
+}
+
+var unknownBlocks = [][]string{
+	{"object network SRV1", " host 10.66.6.6"},
+	{"object-group icmp-type PINGS", " icmp-object echo", " icmp-object echo-reply"},
+	{"policy-map global_policy", " class inspection_default", "  inspect dns"},
+	{"object-group user ADMINS", " user LOCAL\\admin"},
+	{"dynamic-access-policy-record DfltAccessPolicy", " network-acl MANUALACL"},
+}
+
+func insertUnknownBlocks(r *RNG, text string) string {
+	lines := strings.Split(strings.TrimSuffix(text, "\n"), "\n")
+	lastOf := func(prefix string) int {
+		end := -1
+		in := false
+		for i, l := range lines {
+			if !strings.HasPrefix(l, " ") {
+				in = strings.HasPrefix(l, prefix)
+			}
+			if in {
+				end = i + 1
+			}
+		}
+		return end
+	}
+	pos := []int{len(lines)}
+	for _, p := range []string{"object-group network ", "access-list ", "route "} {
+		if e := lastOf(p); e >= 0 {
+			pos = append(pos, e)
+		}
+	}
+	for k := 1 + r.Intn(2); k > 0; k-- {
+		at := Pick(r, pos)
+		blk := Pick(r, unknownBlocks)
+		if strings.Contains(strings.Join(lines, "\n"), blk[0]+"\n") {
+			continue
+		}
+		lines = append(lines[:at:at], append(append([]string{}, blk...), lines[at:]...)...)
+		for i := range pos {
+			if pos[i] > at {
+				pos[i] += len(blk)
+			}
+		}
+	}
+	return strings.Join(lines, "\n") + "\n"
 }
 
 // respell rewrites access-list entries of a configuration text into an equivalent spelling: well-known ports
@@ -451,7 +502,7 @@ func parseDev(text string) *asaDev {
 	d := newDev()
 	var curIntf string
 	var curGroup string
-	var curShut, curOpaque bool
+	var curShut, curOpaque, curUnk bool
 	for _, line := range strings.Split(text, "\n") {
 		if line == "" {
 			continue
@@ -469,11 +520,13 @@ func parseDev(text string) *asaDev {
 				curShut = true
 			} else if curOpaque {
 				d.Opaque[len(d.Opaque)-1].Subs = append(d.Opaque[len(d.Opaque)-1].Subs, t)
+			} else if curUnk {
+				d.Unknown = append(d.Unknown, line) // sub-line of a block the tool does not model
 			}
 			continue
 		}
 		curIntf, curGroup = "", ""
-		curShut, curOpaque = false, false
+		curShut, curOpaque, curUnk = false, false, false
 		w := strings.Fields(line)
 		switch {
 		case w[0] == "group-policy" || w[0] == "tunnel-group":
@@ -498,6 +551,7 @@ func parseDev(text string) *asaDev {
 			d.Routes = append(d.Routes, strings.TrimPrefix(line, "route "))
 		default:
 			d.Unknown = append(d.Unknown, line)
+			curUnk = true
 		}
 	}
 	return d
